@@ -16,6 +16,7 @@ import dlib  # noqa: E402
 
 from traits.api import Any, CInt, Dict, HasTraits, Int, TraitError  # noqa: E402
 from traits.trait_dict_object import TraitDict  # noqa: E402
+from traits.observation.api import DictChangeEvent  # noqa: E402
 
 EXN = ["KeyError", "TraitError", "TypeError", "ValueError"]
 
@@ -125,7 +126,8 @@ def retv(r, op):
 
 
 def run_case(case):
-    holder, td = make(case)
+    holder, td0 = make(case)
+    cur = {"td": td0}
     ev1, ev2, oev, iev = [], [], [], []
 
     def rec1(d, removed, added, changed):
@@ -135,21 +137,24 @@ def run_case(case):
         ev2.append([amap(removed), amap(added), amap(changed)])
 
     def handler(event):
-        if event.object is not td:
+        if not isinstance(event, DictChangeEvent):
+            return                      # "d.items" also reports the reassignment of d itself (a TraitChangeEvent)
+        if event.object is not cur["td"]:
             oev.append([[[999, 999]], []])
         oev.append([amap(event.removed), amap(event.added)])
 
     def items_handler(event):
         iev.append([amap(event.removed), amap(event.added), amap(event.changed)])
 
-    td.notifiers.append(rec1)
+    td0.notifiers.append(rec1)
     holder.observe(handler, "d.items")
-    td.notifiers.append(rec2)
+    td0.notifiers.append(rec2)
     if case["target"] != "plain":
         holder.on_trait_change(items_handler, "d_items")
     hist = []
     for op in case["ops"]:
         del ev1[:], ev2[:], oev[:], iev[:]
+        td = cur["td"]
         k = op[0]
         out, ret = "Ok", ["N"]
         try:
@@ -178,12 +183,29 @@ def run_case(case):
                 ret = retv(td.popitem(), k)
             elif k == "Clear":
                 ret = retv(td.clear(), k)
+            elif k == "Ctor":
+                # a new object from raw items; a rejected item leaves the old object in place
+                arg = dict(pairs(op[2])) if op[1] == "map" else pairs(op[2])
+                if case["target"] == "plain":
+                    new = TraitDict(arg, key_validator=validator(case["kk"]), value_validator=validator(case["vk"]))
+                    new.notifiers.append(rec1)
+                    cur["td"] = new
+                    holder.d = new              # the observer moves to the new dict
+                    new.notifiers.append(rec2)
+                else:
+                    holder.d = arg if op[1] == "map" else dict(arg)
+                    new = holder.d
+                    if new is td:
+                        raise RuntimeError("assignment did not create a new TraitDictObject")
+                    cur["td"] = new
+                    new.notifiers.append(rec1)
+                    new.notifiers.append(rec2)
             else:
                 raise ValueError(k)
         except Exception as e:  # noqa
             out = dlib.exn_name(e, EXN)
             ret = ["N"]
-        hist.append({"out": out, "after": amap(td, keep_order=True), "ev1": list(ev1), "ev2": list(ev2),
+        hist.append({"out": out, "after": amap(cur["td"], keep_order=True), "ev1": list(ev1), "ev2": list(ev2),
                      "oev": list(oev), "iev": (None if case["target"] == "plain" else list(iev)), "ret": ret})
     return hist
 
